@@ -209,14 +209,20 @@ pub enum DecodeErr {
 
 /// Decode one header from the front of `b`; returns it and the bytes consumed.
 pub fn decode(b: &[u8]) -> Result<(RawHeader, usize), DecodeErr> {
+    decode_opts(b, true)
+}
+
+/// `strict = false` follows the declared sizes whatever the magic/version bytes say
+/// (used to locate the reserved/padding bytes of inputs a lenient parser accepted).
+pub fn decode_opts(b: &[u8], strict: bool) -> Result<(RawHeader, usize), DecodeErr> {
     if b.len() < 16 {
         return Err(DecodeErr::Short);
     }
     let magic = [b[0], b[1], b[2]];
-    if magic != HEADER_MAGIC {
+    if strict && magic != HEADER_MAGIC {
         return Err(DecodeErr::Magic);
     }
-    if b[3] != 1 {
+    if strict && b[3] != 1 {
         return Err(DecodeErr::Version);
     }
     let reserved = [b[4], b[5], b[6], b[7]];
@@ -242,7 +248,7 @@ pub fn decode(b: &[u8]) -> Result<(RawHeader, usize), DecodeErr> {
     Ok((
         RawHeader {
             magic,
-            version: 1,
+            version: b[3],
             reserved,
             nindex,
             hsize,
@@ -455,17 +461,21 @@ pub fn assemble(lead: &RawLead, sig: &RawHeader, pad_fill: u8, hdr: &RawHeader, 
 /// Independent scan of a complete package: returns its layout, or None if the
 /// structure cannot be followed.
 pub fn scan(b: &[u8]) -> Option<(RawLead, RawHeader, RawHeader, Layout)> {
+    scan_opts(b, true)
+}
+
+pub fn scan_opts(b: &[u8], strict: bool) -> Option<(RawLead, RawHeader, RawHeader, Layout)> {
     let lead = RawLead::decode(b)?;
-    if lead.magic != LEAD_MAGIC {
+    if strict && lead.magic != LEAD_MAGIC {
         return None;
     }
-    let (sig, sl) = decode(&b[96..]).ok()?;
+    let (sig, sl) = decode_opts(&b[96..], strict).ok()?;
     let pad_len = sig_pad_len(sig.hsize as usize);
     let hdr_off = 96 + sl + pad_len;
     if b.len() < hdr_off {
         return None;
     }
-    let (hdr, hl) = decode(&b[hdr_off..]).ok()?;
+    let (hdr, hl) = decode_opts(&b[hdr_off..], strict).ok()?;
     Some((
         lead,
         sig,
